@@ -148,11 +148,11 @@ def run(ctx):
         'a linearity flag is wrong only if (a) True on an expression that is not additive/homogeneous on the probe '
         'points or (b) False on a structurally linear expression']
     work = ctx.work
-    sizes = 's' if quick else 'm3'
+    sizes = None
     jobs = []
     for prof in ('R', 'RW', 'C'):
-        jobs.append(('exh', prof, sizes, None, None))
-        jobs.append(('sim', prof, 'l', 'num=%d' % (150 if quick else 3000), 7))
+        jobs.append(('exh', prof, 's' if (quick or prof != 'R') else 'm3', None, None))
+        jobs.append(('sim', prof, 'l', 'num=%d' % (150 if quick else 1500), 7))
 
     def go(j):
         name, prof, size, sim, depth = j
